@@ -8,13 +8,13 @@ use crate::verif_vk as vk;
 use crate::verif_vk::vcover;
 use crate::verif_sup::*;
 use crate::store::{Store, TaskNode, ResourceNode};
-use crate::task::{AlwaysConsistent, EqualsChecker};
+use crate::task::EqualsChecker;
 use crate::dependency::{Dependency, ResourceDependency, TaskDependency};
 use crate::{Context, Pie, ResourceState, Task};
 
 const CUR: [Option<u8>; NCELL] = [Some(4), Some(7), None];
 fn req(si: &mut SessionInternal, a: &TaskNode, b: &TaskNode, bid: u8, reserved: bool) {
-  let d = if reserved { Dependency::ReservedRequire } else { TaskDependency::new(P(bid), AlwaysConsistent, ()).into_require() };
+  let d = if reserved { Dependency::ReservedRequire } else { TaskDependency::new(P(bid), AlwaysOk, ()).into_require() };
   assert!(si.store.add_dependency(a, b, d).is_ok(), "harness: acyclic require");
 }
 fn rdep(cell: u8, mode: u8) -> ResourceDependency<Cell, ModeChecker, u16> { ResourceDependency::new(Cell(cell), ModeChecker { mode }, abs(mode, CUR[cell as usize])) }
@@ -48,7 +48,7 @@ const SHAPES_PATH: [u8; 4] = [1, 3, 5, 6];
 // ---- C05, reading side ------------------------------------------------------------------------------------------------
 
 /// X reads R although it does not (transitively) require R's recorded writer W: the build must abort.
-//@h props=C05 tier=quick unwind=14 stubs=sort,optref,boxslice timeout=900 fieldsens=1024 expect_fail="Hidden dependency; resource"
+//@h props=C05 tier=quick unwind=14 stubs=sort,boxslice timeout=900 fieldsens=1024 expect_fail="Hidden dependency; resource"
 fn ctx_read_without_path_to_writer_aborts() {
   let mut pie = Pie::with_tracker(());
   pie.resource_state_mut::<Cell>().set(CellState { v: CUR });
@@ -67,7 +67,7 @@ fn ctx_read_without_path_to_writer_aborts() {
 
 /// X reads R and does reach W: no abort; the read is recorded with the checker passed and a stamp taken from the very
 /// reader handed back (C09), which is returned in a fresh state.
-//@h props=C05,C09,C08:t tier=quick unwind=14 stubs=sort,optref,boxslice timeout=900 fieldsens=1024
+//@h props=C05,C09,C08:t tier=quick unwind=14 stubs=sort,boxslice timeout=900 fieldsens=1024
 fn ctx_read_with_path_to_writer_is_recorded() {
   let mut pie = Pie::with_tracker(());
   pie.resource_state_mut::<Cell>().set(CellState { v: CUR });
@@ -118,7 +118,7 @@ fn do_write(si: &mut SessionInternal, via_written_to: bool, newv: Option<u8>) {
 
 /// X writes R (through `write` or `written_to`) although some recorded reader does not require X: abort, before the writer
 /// is opened and before write_fn runs.
-//@h props=C05 tier=quick unwind=14 stubs=sort,optref,boxslice timeout=900 fieldsens=1024 expect_fail="Hidden dependency; resource"
+//@h props=C05 tier=quick unwind=14 stubs=sort,boxslice timeout=900 fieldsens=1024 expect_fail="Hidden dependency; resource"
 fn ctx_write_with_unrelated_reader_aborts() {
   let mut pie = Pie::with_tracker(());
   pie.resource_state_mut::<Cell>().set(CellState { v: CUR });
@@ -145,7 +145,7 @@ fn ctx_write_with_unrelated_reader_aborts() {
 
 /// X writes R whose recorded writer is another task W: abort with an overlapping-write error before anything is modified.
 /// Includes the case where X already has a (legal) read edge to R.
-//@h props=C06 tier=quick unwind=14 stubs=sort,optref,boxslice timeout=900 fieldsens=1024 expect_fail="Overlapping write; resource"
+//@h props=C06 tier=quick unwind=14 stubs=sort,boxslice timeout=900 fieldsens=1024 expect_fail="Overlapping write; resource"
 fn ctx_write_to_resource_of_other_writer_aborts() {
   let mut pie = Pie::with_tracker(());
   pie.resource_state_mut::<Cell>().set(CellState { v: CUR });
@@ -166,7 +166,7 @@ fn ctx_write_to_resource_of_other_writer_aborts() {
 
 /// Allowed writes: no recorded writer and every recorded reader requires X; or X is the recorded writer re-executing after
 /// reset_task. No abort; exactly one write edge; stamp taken after write_fn (C09).
-//@h props=C06,C09,C05:t,C08:t tier=quick unwind=14 stubs=sort,optref,boxslice timeout=900 fieldsens=1024
+//@h props=C06,C09,C05:t,C08:t tier=quick unwind=14 stubs=sort,boxslice timeout=900 fieldsens=1024
 fn ctx_allowed_writes_are_recorded_once() {
   let mut pie = Pie::with_tracker(());
   pie.resource_state_mut::<Cell>().set(CellState { v: CUR });
@@ -207,7 +207,7 @@ fn pie_state(si: &mut SessionInternal) -> Option<u8> { Cell(0).read(si.resource_
 
 /// Execution 1 of T = X records a solver-chosen subset of {read Cell0, require Y, write Cell1} (in that or the reverse order),
 /// then reset_task, then execution 2 records another subset. Afterwards exactly execution 2's dependencies remain.
-//@h props=C08 tier=quick unwind=14 stubs=sort,optref,boxslice timeout=900 fieldsens=1024
+//@h props=C08 tier=quick unwind=14 stubs=sort,boxslice timeout=900 fieldsens=1024
 fn ctx_reset_then_rerecord_is_exact() {
   let mut pie = Pie::with_tracker(());
   let mut s = pie.new_session();
@@ -252,7 +252,7 @@ fn ctx_reset_then_rerecord_is_exact() {
 
 /// X = P(0) is executing and requires Y although Y already (transitively) requires X, or Y is X itself: the reservation of
 /// the require edge must abort with a cyclic-dependency error.
-//@h props=C07 tier=quick unwind=14 stubs=sort,optref,boxslice timeout=900 fieldsens=1024 expect_fail="Cyclic task dependency; current executing task"
+//@h props=C07 tier=quick unwind=14 stubs=sort,boxslice timeout=900 fieldsens=1024 expect_fail="Cyclic task dependency; current executing task"
 fn ctx_require_closing_a_cycle_aborts() {
   let mut pie = Pie::with_tracker(());
   let mut s = pie.new_session();
@@ -275,7 +275,7 @@ fn ctx_require_closing_a_cycle_aborts() {
 }
 
 /// ... and a require that closes no cycle is reserved (edge present, marked reserved) without executing anything.
-//@h props=C07,C08:t tier=quick unwind=14 stubs=sort,optref,boxslice timeout=900 fieldsens=1024
+//@h props=C07,C08:t tier=quick unwind=14 stubs=sort,boxslice timeout=900 fieldsens=1024
 fn ctx_require_without_cycle_is_reserved() {
   let mut pie = Pie::with_tracker(());
   let mut s = pie.new_session();
